@@ -21,7 +21,6 @@ import (
 	"encoding/json"
 	"fmt"
 	"os"
-	"os/exec"
 	"path/filepath"
 	"strings"
 	"sync"
@@ -187,7 +186,9 @@ func TestVerifC19WatchChild(t *testing.T) {
 	report()
 }
 
-func runWatch(w *vf.Writer) {
+func runWatch(t *testing.T, w *vf.Writer) {
+	t.Helper()
+
 	root := vf.NewRand(vf.Seed() + 67)
 
 	good := [][]Part{
@@ -244,13 +245,8 @@ func runWatch(w *vf.Writer) {
 		Analyse(in, Compose(initial), Password)
 
 		raw, _ := json.Marshal(watchChildIn{Initial: initial, Steps: steps})
-		cctx, cancel := context.WithTimeout(context.Background(), 3*time.Minute)
-		cmd := exec.CommandContext(cctx, os.Args[0], "-test.run", "^TestVerifC19WatchChild$", "-test.v")
-		cmd.Env = append(os.Environ(), "C19_WATCH_CASE="+string(raw), "VERIF_OUT=/dev/null")
-		outb, err := cmd.CombinedOutput()
-		text := string(outb)
-
-		cancel()
+		// 5 steps, each waits at most 20 s for the delivery and stops the run when it does not come
+		text, err := RunChild(t, "TestVerifC19WatchChild", 45*time.Second, "C19_WATCH_CASE="+string(raw))
 
 		var res watchChildOut
 
